@@ -17,6 +17,7 @@ import (
 	"sort"
 	"sync"
 	"sync/atomic"
+	"time"
 
 	"github.com/go-kid/ioc/component_definition"
 	"github.com/go-kid/ioc/container/support"
@@ -98,7 +99,14 @@ func regStressRound(g, per int, round int) []rsEv {
 		}(w)
 	}
 	close(start)
-	wg.Wait()
+	// an operation that never returns (nothing it could wait for outlives the round) is an observation, not a harness timeout
+	joined := make(chan struct{})
+	go func() { wg.Wait(); close(joined) }()
+	select {
+	case <-joined:
+	case <-time.After(20 * time.Second):
+		return []rsEv{{A: "ev", Op: "stuck", Ks: []int{}}}
+	}
 	// after the join: one last enumeration by the caller (what the container does after the scanning phase)
 	last := rsEv{A: "ev", Op: "metas", G: 0}
 	last.Inv = atomic.AddInt64(&clock, 1)
@@ -132,11 +140,15 @@ func cmdRegStress(in, out string) error {
 	n := 0
 	for r := 0; r < c.Rounds; r++ {
 		_ = enc.Encode(map[string]any{"a": "hist", "id": r})
-		for _, e := range regStressRound(c.G, c.Per, r) {
+		evs := regStressRound(c.G, c.Per, r)
+		for _, e := range evs {
 			_ = enc.Encode(e)
 			n++
 		}
 		_ = enc.Encode(map[string]any{"a": "end", "id": r})
+		if len(evs) == 1 && evs[0].Op == "stuck" {
+			break // the goroutines of that round are abandoned: no further rounds next to them
+		}
 	}
 	fmt.Fprintf(os.Stderr, "regstress: %d rounds, %d events\n", c.Rounds, n)
 	return nil
